@@ -51,7 +51,9 @@ ASSUMPTIONS = ["finite f64 inputs; point sets non-empty (an empty point set pani
 EPS = 2.0 ** -52
 MINNORM = 2.0 ** -1022
 
-# Tolerance constants (calibrated: see CALIB below; >= 100x the maximum observed over seeds 1..5, both tiers)
+# Tolerance constants, >= 100x the maximum ratio observed on the current tree (CV_C20_CALIB=1 prints them):
+# seeds 1..5 + default quick and the thorough tier gave  scalar rbf 1.61, scalar rq 1.76, matrix rbf 0.78,
+# matrix rq 0.71 (in units of eps * cond * exact value); no inversion of the monotone order was ever observed.
 C_SCALAR = 400.0     # scalar form vs exact value: |k - k*| <= C eps (1 + |arg|) k*          (RBF), (1 + alpha) (RQ)
 C_MATRIX = 400.0     # matrix form vs exact value: |K_ij - k*| <= k* expm1(C eps (1 + cond_ij))
 C_MONO = 4.0         # monotonicity along sorted distances: k(d') <= k(d) (1 + C eps) for d' > d
@@ -278,6 +280,11 @@ def corpus():
     # empty point sets: is_matrix divides by zero rows -> panic on both sides
     ls.append(mk_mat("rbf_m", 0, [two_, half], 1, 0, [], 1, 2, [0.0, 1.0]))
     ls.append(mk_mat("rbf_m", 1, [two_, half], 1, 2, [0.0, 1.0], 1, 0, [], ))
+    # cancellation in x^2 + y^2 - 2xy (matrix form): var = 1, l = 0.01, points 913.436 and 913.4360001 give the
+    # off-diagonal Gram entry 1.000001164153896 > var (scalar form: 0.99999999995); inside the cancellation-aware
+    # tolerance, counted in oracle_observations, reported as `matrix-form:cancellation` when STRICT_CANCELLATION is set
+    ls.append(mk_mat("rbf_m", 0, [one, 0.01], 1, 2, [913.436, 913.4360001], 1, 2, [913.436, 913.4360001]))
+    ls.append(mk_pairs("rbf_p", 0, [one, 0.01], [(913.436, 913.4360001), (913.4360001, 913.436)]))
     return ls
 
 
